@@ -1075,6 +1075,29 @@ fn btr_mutants(t: &mut Tally<'_>, world: &World, wi: usize, w: WorldlineId, unco
                 r.payload.entries.pop();
             }), None));
         }
+        // material that reaches past what the validating store retains: the store
+        // cannot vouch for those entries, so acceptance is acceptance of unverified history
+        if b == n && len > 0 {
+            for extra in 1..=2u64 {
+                muts.push(("btr.extend-past-tip", format!("payload.entries + {extra} forged entr(y/ies) past the retained tip (self-consistent output boundary)"), m(&|r| {
+                    for k in 0..extra {
+                        let mut e = r.payload.entries[len - 1].clone();
+                        e.worldline_tick = wt(n + k);
+                        r.payload.entries.push(e);
+                    }
+                    if let Some(last) = r.payload.entries.last() {
+                        r.output_boundary_hash = last.expected.state_root;
+                    }
+                }), None));
+            }
+            muts.push(("btr.extend-past-tip", "record fabricated entirely past the retained tip (starts at the tip)".into(), m(&|r| {
+                let mut e = r.payload.entries[len - 1].clone();
+                e.worldline_tick = wt(n);
+                r.input_boundary_hash = r.output_boundary_hash;
+                r.payload.start_worldline_tick = wt(n);
+                r.payload.entries = vec![e];
+            }), None));
+        }
         for (family, label, r, unbound) in muts {
             let verdict = match svc.validate_btr(&r) {
                 Err(e) => Err(format!("validate_btr:{}", err_name(&format!("{e:?}")))),
